@@ -401,7 +401,10 @@ def gen_con(rng, nv, doms):
         return ["cmp", op, lhs, rhs]
     if r < 0.6:
         k = rng.randint(2, nv)
-        return ["all_different", rng.sample(idx, k)]
+        vs = rng.sample(idx, k)
+        if rng.random() < 0.08:
+            vs.append(rng.choice(vs))          # the same variable listed twice: no assignment makes it differ from itself
+        return ["all_different", vs]
     if r < 0.78:
         k = rng.randint(0, min(5, nv + 1))
         vs = [rng.randrange(nv) for _ in range(k)] if rng.random() < 0.3 else rng.sample(idx, min(k, nv))
